@@ -28,7 +28,7 @@ def jobs(tier):
                  bound="1x1 matrix; scaling value symbolic in {0} U [0.02, 1e6)", timeout=900,
                  clause="fit and apply make the same zero-spread decision on the property's domain; zero-spread column becomes exactly 0"))
     J.append(Job("zero_guard@any-scale", "C10/prep.c", entry="h_zero_guard", srcs=S, kind="bounded", defines={}, unwind=4, functions=["MatrixPreprocess"],
-                 bound="1x1 matrix; scaling value symbolic in [0, 1e6) (level scaling stores the column mean, which the spread domain does not restrict)", timeout=900,
+                 bound="1x1 matrix; scaling value symbolic in (-1e6, 1e6) (level scaling stores the column mean, which the spread domain does not restrict)", timeout=900,
                  clause="fit and apply make the same zero-spread decision for every stored scaling value"))
     for r in ((2, 3) if tier == "quick" else (1, 2, 3, 4)):
         J.append(Job("minmax@r=%d" % r, "C10/prep.c", entry="h_minmax", srcs=S, kind="bounded", defines={"VC_R": r, "VC_REAL_STATS": None}, unwind=r + 3,
